@@ -101,6 +101,23 @@ impl<T: Read + Write + ScmSocket> HttpConnection<T> {
     /// `ConnectionClosed` is returned when a client prematurely closes the connection.
     /// `ParseError` is returned when a parsing operation fails.
     pub fn try_read(&mut self) -> Result<(), ConnectionError> {
+        let result = self.read_and_parse();
+        if let Err(ConnectionError::ParseError(_)) = result {
+            // The request that was being received is invalid, so nothing of it may
+            // survive: drop it together with any partially buffered line and handle
+            // the bytes of the next read as a new connection would. Requests that
+            // were completely parsed before the error remain available.
+            self.state = ConnectionState::WaitingForRequestLine;
+            self.pending_request = None;
+            self.read_cursor = 0;
+            self.body_vec.clear();
+            self.body_bytes_to_be_read = 0;
+            self.files.clear();
+        }
+        result
+    }
+
+    fn read_and_parse(&mut self) -> Result<(), ConnectionError> {
         // Read some bytes from the stream, which will be appended to what is already
         // present in the buffer from a previous call of `try_read`. There are already
         // `read_cursor` bytes present in the buffer.
